@@ -206,7 +206,57 @@ func critLits(vs []interface{}) []interface{} {
 
 // ---------- raw store inspection (representation invariant) ----------
 
+// refreshers: for a DB opened over a real store adapter the "reference store" handle is only a view of the
+// adapter's committed content, re-read through the store.Store interface before every inspection.
+var refreshers = map[*memstore.Store]func(){}
+
+func refresh(ms *memstore.Store) {
+	if f := refreshers[ms]; f != nil {
+		f()
+	}
+}
+
+// dumpStore reads every committed key/value through the public store interface.
+func dumpStore(st store.Store) []memstore.KV {
+	var out []memstore.KV
+	tx, err := st.Begin(false)
+	if err != nil {
+		return nil
+	}
+	defer tx.Rollback()
+	cur, err := tx.Cursor(true)
+	if err != nil {
+		return nil
+	}
+	defer cur.Close()
+	cur.Seek([]byte{})
+	for ; cur.Valid(); cur.Next() {
+		it, err := cur.Item()
+		if err != nil {
+			break
+		}
+		out = append(out, memstore.KV{K: it.Key, V: it.Value})
+	}
+	return out
+}
+
+// envBackend selects the store of openEnv: 0 = reference store, 1 = real bbolt adapter, 2 = real badger
+// adapter (both over their library contract stubs under the engine, over the real libraries natively).
+var envBackend = 0
+
+func openEnv() *env {
+	if envBackend == 0 {
+		return openMemEnv()
+	}
+	st := openAdapter(envBackend - 1)
+	db, _ := OpenWithStore(st)
+	view := memstore.New()
+	refreshers[view] = func() { view.Data = dumpStore(st) }
+	return &env{db: db, ms: view}
+}
+
 func rawKeys(ms *memstore.Store, prefix string) []memstore.KV {
+	refresh(ms)
 	var out []memstore.KV
 	for _, kv := range ms.Data {
 		if bytes.HasPrefix(kv.K, []byte(prefix)) {
@@ -246,6 +296,7 @@ func hasKey(kvs []memstore.KV, k []byte) bool {
 
 // audit asserts that the committed key space is exactly what the abstract state dictates.
 func audit(label string, ms *memstore.Store, a *absDB) {
+	refresh(ms)
 	// catalog
 	metas := rawKeys(ms, "coll:")
 	nd.Assert(label+".audit.catalog-size", len(metas) == len(a.colls))
